@@ -121,7 +121,7 @@ func (b *simBucket) ListPaged(_ context.Context, opts *driver.ListOptions) (*dri
 }
 
 func (b *simBucket) Attributes(_ context.Context, key string) (*driver.Attributes, error) {
-	key = strings.TrimPrefix(key, "/")
+	// (keys are taken literally, as real object stores do: "/svc/a.yaml" is not "svc/a.yaml")
 	b.mu.Lock()
 	defer b.mu.Unlock()
 	b.sequence = append(b.sequence, key)
@@ -148,7 +148,7 @@ func (r *simReader) Attributes() *driver.ReaderAttributes { return &r.attrs }
 func (r *simReader) As(any) bool                         { return false }
 
 func (b *simBucket) NewRangeReader(_ context.Context, key string, offset, length int64, _ *driver.ReaderOptions) (driver.Reader, error) {
-	key = strings.TrimPrefix(key, "/")
+	// (keys are taken literally)
 	b.mu.Lock()
 	defer b.mu.Unlock()
 	if err := b.fault("read", key); err != nil {
@@ -236,9 +236,17 @@ func blobProvSim(r *simcore.Run) {
 			bucketConf = map[string]any{"url": "simblob://bucket/" + keys[0]}
 			epID = "simblob://bucket/" + keys[0] + "/"
 		}
+		// source ids are the provider's business: the id under which an object's rule set is (or was last) active is
+		// looked up, not predicted
+		lastSource := map[string]string{}
 		source := func(k string) string {
-			if single {
-				return "/" + k + "@" + epID
+			for _, src := range rec.ActiveSources() {
+				if strings.TrimPrefix(src, "/") == k+"@"+epID {
+					lastSource[k] = src
+				}
+			}
+			if src, ok := lastSource[k]; ok {
+				return src
 			}
 			return k + "@" + epID
 		}
@@ -309,9 +317,14 @@ func blobProvSim(r *simcore.Run) {
 				var se *simErr
 				errors.As(err, &se)
 				if single && se != nil && se.code == gcerrors.NotFound {
-					if _, exists := bkt.objects[k]; !exists {
-						models[k].Gone("object does not exist")
+					// the truth is the object the bucket URL names (keys[0]), whatever key the provider asked the store for
+					if _, exists := bkt.objects[keys[0]]; !exists {
+						models[keys[0]].Gone("object does not exist")
 						return
+					}
+					if k != keys[0] {
+						// the configured object exists, the provider asked for another key: nothing was observed
+						continue
 					}
 				}
 				if commLike(err) {
